@@ -33,7 +33,7 @@ func init() {
 		ID: "C12", HangIsViolation: true, Gen: genC12, GenRace: genC12, Run: runC12, Quick: 1500, Thorough: 200000, RaceQuick: 200, RaceThorough: 10000,
 		Real: []string{"pkg/collector: Start, TCP/TLS accept loop and per-connection reader goroutines, UDP socket reader and per-client goroutines, message channel, client table, Stop / WaitGroup shutdown", "crypto/tls on the TLS member"},
 		Stub: []string{"OS sockets (simnet)", "wall clock (synctest bubble)", "goroutine scheduling (sim layer: seeded baton scheduler with preemptions; race layer: Go scheduler with seeded perturbation under the race detector)"},
-		Rule: "1-8 clients with their own template id and numbered records over tcp / udp / tls, seeded connect / send / close timings incl. abrupt close mid-message, a consumer that stalls for seeded periods, Stop at a seeded instant during traffic; per-connection order / exactly-once, connection count, Stop latency, goroutine and socket census; non-trivial = at least 2 clients and 4 messages delivered; distinct = distinct event-log hash (sim) or plan seed (race)",
+		Rule: "1-8 clients with their own template id and numbered records over tcp / udp / tls, seeded connect / send / close timings incl. abrupt close mid-message, templates repeated in mid-stream, a client whose connection is reset and that reconnects from the same address and port, a consumer that stalls for seeded periods, Stop at a seeded instant during traffic; per-connection order / exactly-once, connection count, Stop latency, goroutine and socket census; non-trivial = at least 2 clients and 4 messages delivered; distinct = distinct event-log hash (sim) or plan seed (race)",
 	})
 }
 
